@@ -370,6 +370,17 @@ func genC07(t *rapid.T) c07Case {
 		for i := 0; i < w; i++ {
 			core = append(core, 0x01, 0x00)
 		}
+		if rapid.Bool().Draw(t, "wideAndDeep") {
+			// a wide list of small items (zero-length ones of every type among them) at the bottom of a deep chain:
+			// whatever is paid per item per enclosing level shows as depth x width
+			leaf := rapid.SampledFrom([][]byte{{0x41, 0x00}, {0x21, 0x00}, {0x25, 0x00}, {0x01, 0x00}, {0xA5, 0x00}, {0x71, 0x00}, {0x91, 0x00}, {0x81, 0x00}, {0x41, 0x01, 0x61}, {0xA5, 0x01, 0x07}, {0x25, 0x01, 0x01}}).Draw(t, "wideLeaf")
+			w = rapid.IntRange(200, 3000).Draw(t, "wideWidth")
+			core = []byte{0x02, byte(w >> 8), byte(w)}
+			for i := 0; i < w; i++ {
+				core = append(core, leaf...)
+			}
+			return c07Case{Gen: "wide-list-below-chain", Depth: rapid.IntRange(200, c07DepthCap).Draw(t, "depth"), Core: core}
+		}
 		return c07Case{Gen: "wide-list", Depth: rapid.IntRange(0, 20).Draw(t, "depth"), Core: core}
 	default: // includes 12
 		body := rapid.SliceOfN(rapid.Byte(), 0, 300).Draw(t, "bytes")
